@@ -1,5 +1,6 @@
 (* Re-proved on every run against the tables regenerated from /repo. *)
-From Miller Require Import Base.Bytes C06.Model C06.Proofs gen.Gen_ScanTables.
+From Miller Require Import Base.Bytes C06.Model C06.Proofs C06.Grammar C06.GrammarProofs C06.GrammarInfer C06.GrammarAccept C06.Tables gen.Gen_ScanTables gen.Gen_ScanTypes.
+Require Import String.
 Open Scope char_scope.
 
 Lemma gen_dec_spec c : gen_is_dec c = spec_dec c.  Proof. all_bytes c. Qed.
@@ -14,3 +15,30 @@ Lemma gscan_spec s : gscan s = scan spec_dec spec_oct spec_hex spec_flt s.
 Proof. apply scan_ext; [apply gen_dec_spec|apply gen_oct_spec|apply gen_hex_spec|apply gen_flt_spec]. Qed.
 Lemma ginfer_spec f s : ginfer f s = infer spec_dec spec_oct spec_hex spec_flt f s.
 Proof. apply infer_ext; [apply gen_dec_spec|apply gen_oct_spec|apply gen_hex_spec|apply gen_flt_spec]. Qed.
+
+(* the regenerated scan-type enum and inferrer tables are the ones the model dispatches through *)
+Lemma gen_type_names_spec :
+  gen_type_names = map (fun t => (N.to_nat (scantype_code t), scantype_name t)) all_scantypes.
+Proof. reflexivity. Qed.
+Lemma gen_normal_table_spec : gen_normal_table = map (fun t => inferrer_name (dispatch false t)) all_scantypes.
+Proof. reflexivity. Qed.
+Lemma gen_octal_table_spec : gen_octal_table = map (fun t => inferrer_name (dispatch true t)) all_scantypes.
+Proof. reflexivity. Qed.
+Lemma gen_selectors_spec : gen_selectors = map (fun f => (flag_name f, selector_name f)) [FDefault; FS; FA; FO].
+Proof. reflexivity. Qed.
+(* the canonical example in each type name's comment (type.go) gets that scan type from the real scanner, and from the model *)
+Lemma gen_examples_spec :
+  gen_examples = map (fun e => (fst e, N.to_nat (scantype_code (scan spec_dec spec_oct spec_hex spec_flt (B (fst e))))))
+                     [("abc", 0); ("123", 0); ("0899", 0); ("0o377", 0); ("0377", 0); ("0xcafe", 0); ("0b1011", 0); ("1.5", 0)]%string%nat
+  /\ map snd gen_examples = map (fun t => N.to_nat (scantype_code t)) all_scantypes.
+Proof. split; reflexivity. Qed.
+
+(* the float-path theorems, for the scanner/inferrer instantiated with the regenerated tables *)
+Lemma g_float_path_iff_grammar s :
+  (gscan s = SMaybeFloat /\ parse_float s <> None) <-> (FloatLit s /\ has_point_or_exp s = true).
+Proof. rewrite gscan_spec. apply float_path_iff_grammar. Qed.
+Lemma g_float_literal_inferred s :
+  FloatLit s -> has_point_or_exp s = true ->
+  exists p, float_parts (snd (split_sign s)) = Some p
+  /\ ginfer FDefault s = match float_value (is_neg (fst (split_sign s))) p with Some b => VFloat b | None => VString end.
+Proof. rewrite ginfer_spec. apply float_literal_inferred. Qed.
